@@ -73,6 +73,26 @@ func c17Formats() []c17Fmt {
 		{Name: "xml-basic", Schema: `{` + h("xml") + `,"transform_declarations":{"FINAL_OUTPUT":{"xpath":"/r/g/a[@k!='skip']","object":{"k":{"xpath":"@k"},"b":{"xpath":"b","type":"int"},"h":{"xpath":"../../h"}}}}}`,
 			Prefix: `<r><h>H</h><g>`, Suffix: `</g></r>`, Rec: map[byte]string{'P': `<a k="x"><b>1</b><c/></a>`, 'F': `<a k="skip"><b>1</b></a>`, 'T': `<a k="x"><b>zz</b></a>`},
 			Seps: map[string]string{"none": "", "chardata": "\n  ", "comment": "<!-- c -->"}},
+		// numeric filters meeting a value that is not a number ("F" here = the filter cannot be evaluated on the record)
+		{Name: "csv-numeric-filter", Schema: `{` + h("csv") + `,"file_declaration":{"delimiter":",","header_row_index":1,"data_row_index":2,"columns":[{"name":"a"},{"name":"b"},{"name":"q"}]},
+ "transform_declarations":{"FINAL_OUTPUT":{"xpath":".[q>5]","object":{"a":{"xpath":"a"},"b":{"xpath":"b","type":"int"}}}}}`,
+			Prefix: "a,b,q\n", Rec: map[byte]string{'P': "x,1,20\n", 'F': "x,1,N/A\n", 'T': "x,zz,20\n"}, Seps: map[string]string{"none": ""}},
+		{Name: "fixed-length-rows-numeric-filter", Schema: `{` + h("fixed-length") + `,"file_declaration":{"envelopes":[{"by_rows":2,"columns":[{"name":"a","start_pos":1,"length":4,"line_pattern":"^[a-z]"},{"name":"q","start_pos":5,"length":3,"line_pattern":"^[a-z]"},{"name":"b","start_pos":1,"length":2,"line_pattern":"^[0-9z]"}]}]},
+ "transform_declarations":{"FINAL_OUTPUT":{"xpath":".[q > 5]","object":{"a":{"xpath":"a"},"b":{"xpath":"b","type":"int"}}}}}`,
+			Rec: map[byte]string{'P': "xxxx020\n11\n", 'F': "xxxxN/A\n11\n", 'T': "xxxx020\nzz\n"}, Seps: map[string]string{"none": ""}},
+		{Name: "fixed-length-hf-numeric-filter", Schema: `{` + h("fixed-length") + `,"file_declaration":{"envelopes":[{"name":"V","by_header_footer":{"header":"^V0","footer":"^V9"},"columns":[{"name":"q","start_pos":3,"length":3,"line_pattern":"^V2"},{"name":"b","start_pos":3,"length":2,"line_pattern":"^V3"}]}]},
+ "transform_declarations":{"FINAL_OUTPUT":{"xpath":".[q > 5]","object":{"b":{"xpath":"b","type":"int"}}}}}`,
+			Rec: map[byte]string{'P': "V0\nV2020\nV311\nV9\n", 'F': "V0\nV2N/A\nV311\nV9\n", 'T': "V0\nV2020\nV3zz\nV9\n"}, Seps: map[string]string{"none": ""}},
+		{Name: "edi-flat-numeric-filter", Schema: `{` + h("edi") + `,"file_declaration":{"segment_delimiter":"~","element_delimiter":"*","segment_declarations":[{"name":"ISA","child_segments":[
+   {"name":"A","is_target":true,"min":0,"max":-1,"elements":[{"name":"q","index":1},{"name":"b","index":2}]}]},{"name":"IEA"}]},
+ "transform_declarations":{"FINAL_OUTPUT":{"xpath":".[q>=5]","object":{"b":{"xpath":"b","type":"int"}}}}}`,
+			Prefix: "ISA*0~", Suffix: "IEA~", Rec: map[byte]string{'P': "A*20*1~", 'F': "A*N/A*1~", 'T': "A*20*zz~"}, Seps: map[string]string{"none": ""}},
+		{Name: "csv2-flat-numeric-filter", Schema: `{` + h("csv2") + `,"file_declaration":{"delimiter":",","records":[{"name":"R","header":"^R","is_target":true,"columns":[{"name":"q","index":2},{"name":"b","index":3}]}]},
+ "transform_declarations":{"FINAL_OUTPUT":{"xpath":".[q>5]","object":{"b":{"xpath":"b","type":"int"}}}}}`,
+			Rec: map[byte]string{'P': "R,20,1\n", 'F': "R,N/A,1\n", 'T': "R,20,zz\n"}, Seps: map[string]string{"none": ""}},
+		{Name: "xml-numeric-filter", Schema: `{` + h("xml") + `,"transform_declarations":{"FINAL_OUTPUT":{"xpath":"/r/a[q>5]","object":{"b":{"xpath":"b","type":"int"}}}}}`,
+			Prefix: `<r>`, Suffix: `</r>`, Rec: map[byte]string{'P': `<a><q>20</q><b>1</b></a>`, 'F': `<a><q>N/A</q><b>1</b></a>`, 'T': `<a><q>20</q><b>zz</b></a>`},
+			Seps: map[string]string{"none": ""}},
 		{Name: "xml-childfilter", Schema: `{` + h("xml") + `,"transform_declarations":{"FINAL_OUTPUT":{"xpath":"/r/a[b!='0']","object":{"b":{"xpath":"b","type":"int"}}}}}`,
 			Prefix: `<r>`, Suffix: `</r>`, Rec: map[byte]string{'P': `<a><b>1</b></a>`, 'F': `<a><b>0</b></a>`, 'T': `<a><b>zz</b></a>`},
 			Seps: map[string]string{"none": "", "chardata": "\n", "comment": "<!-- c -->"}},
@@ -278,7 +298,7 @@ func init() {
 	core.Register(&core.Prop{
 		ID:    "C17",
 		Level: "exploration",
-		Rule:  "for every format item x separator x periodic outcome pattern over {pass, filtered-out, transform-fails} (quick: 14 words; thorough: every word of length <= 5 with a delivered record) x driver {Transform loop, FormatReader without Release}: prefix (sep record)^k suffix with k cycles; for every delivered record the tree reachable from its root is measured (node count, structure hash) and must be periodic with the pattern period after a 2-period warm-up (a lasso in the retained-state graph, which bounds the size for every k); plus, per item x separator x driver, one run of 1500 (thorough 6000) cycles in which the BYTES reachable from the Transform / reader object (reflection walk: objects behind pointers, slice capacities, strings, map entries) are measured at every 4th delivered record and the maximum over the second half must not exceed the maximum between 10% and 50% by more than 256 bytes; distinct by (item, separator, pattern, driver)",
+		Rule:  "for every format item x separator x periodic outcome pattern over {pass, filtered-out (for six items: the numeric filter cannot be evaluated on the record's value), transform-fails} (quick: 14 words; thorough: every word of length <= 5 with a delivered record) x driver {Transform loop, FormatReader without Release}: prefix (sep record)^k suffix with k cycles; for every delivered record the tree reachable from its root is measured (node count, structure hash) and must be periodic with the pattern period after a 2-period warm-up (a lasso in the retained-state graph, which bounds the size for every k); plus, per item x separator x driver, one run of 1500 (thorough 6000) cycles in which the BYTES reachable from the Transform / reader object (reflection walk: objects behind pointers, slice capacities, strings, map entries) are measured at every 4th delivered record and the maximum over the second half must not exceed the maximum between 10% and 50% by more than 256 bytes; distinct by (item, separator, pattern, driver)",
 		Assumptions: []string{
 			"readers are deterministic functions of their retained state and the remaining input, so a repeated retained-tree signature at the same phase of a periodic input repeats forever",
 			"non-target declarations that themselves repeat without bound (e.g. repeated global envelopes) are outside the property ('a fixed set of ancestors')",
